@@ -14,9 +14,9 @@ pub mod m0_ren0 {
       relation rel3_(i64, i64, i64);
       relation rel4_(i64, i64, i64);
       relation rel5_(i64, i64);
-      rel2_(x1_, x0_, x1_) <-- if let Some(x0_) = Some(4), rel1_(x1_, x2_);
-      rel3_(x0_, (x0_ + 1), x0_) <-- let x0_ = 2, rel1_(x1_, x0_) if ((*x1_) < 1), if (x0_ < 6);
-      rel4_(x0_, x1_, (x0_ + 1)) <-- if let Some(x0_) = None::<i64>, rel2_(x0_, (x0_ + 0), x0_), rel3_(x1_, x0_, x0_), if (x0_ < 6);
+      rel2_(x1_, x0_, x1_) <-- if let Some(x0_) = Some(4), rel1_(x1_, x2_), if (x0_ <= 6);
+      rel3_(x0_, (x0_ + 1), x0_) <-- let x0_ = 2, rel1_(x1_, x0_) if ((*x1_) < 1), if (x0_ <= 6), if (x0_ < 6);
+      rel4_(x0_, x1_, (x0_ + 1)) <-- if let Some(x0_) = None::<i64>, rel2_(x0_, (x0_ + 0), x0_), rel3_(x1_, x0_, x0_), if (x0_ <= 6), if (x0_ < 6);
       rel2_(x0_, x8_, x9_) <-- if let Some(x9_) = Some(2), rel1_(x0_, x1_), rel5_(x1_, x9_) let x8_ = ((*x0_) + 1);
       rel3_(x0_, x1_, x2_) <-- rel5_(x0_, x1_) if ((*x0_) < 4), rel1_(x1_, x2_) if ((*x2_) != (*x1_));
       rel5_((x0_ + 1), x0_) <-- for x0_ in [3, 4], if (x0_ < 6);
@@ -56,20 +56,20 @@ pub mod m2_perm0 {
    use crate::common::*;
    ascent! {
       pub struct Prog;
-      relation r3(i64, i64);
+      relation r0(i64, i64);
       relation r2(i64);
       relation r1(i64);
       relation r4(i64, i64);
+      relation r3(i64, i64);
       relation r5(i64, i64);
-      relation r0(i64, i64);
       r2(v0) <-- r5(v0, v1), r5(v0, v0), r5(v1, v2);
-      r2(3) <-- r3(v0, v1);
-      r5(((*v0) + 1), v0) <-- r5(v0, v1), if ((*v0) < 6);
-      r3(v0, v2) <-- r3(0, 0), r4(0, v0) if ((*v0) <= 3), if let Some(v2) = Some(((*v0) + 0)), r3(((*v0) + 0), v1);
-      r2(v2) <-- r0(0, v0) if ((*v0) <= 6) let v1 = ((*v0) + 0), let v2 = 1;
       r4(v0, v1) <-- r0(v0, v1), r3(v0, v0), r0(v1, v2);
-      r4(v2, v1) <-- if let Some(v0) = Some(0), r1(v2) if ((*v2) != 3), r2(v1) if ((*v1) < 5);
       r3(0, v1) <-- for v0 in 2..1, r1(v1), r2(v0) if (v0 < 6);
+      r2(v2) <-- r0(0, v0) if ((*v0) <= 6) let v1 = ((*v0) + 0), let v2 = 1, if (v2 <= 6);
+      r3(v0, v2) <-- r3(0, 0), r4(0, v0) if ((*v0) <= 3), if let Some(v2) = Some(((*v0) + 0)), r3(((*v0) + 0), v1), if (v2 <= 6);
+      r4(v2, v1) <-- if let Some(v0) = Some(0), r1(v2) if ((*v2) != 3), r2(v1) if ((*v1) < 5);
+      r5(((*v0) + 1), v0) <-- r5(v0, v1), if ((*v0) < 6);
+      r2(3) <-- r3(v0, v1);
    }
    pub struct Inst { p: Prog, pool: Option<ascent::rayon::ThreadPool> }
    pub fn make(pool: Option<usize>) -> Box<dyn Driver> {
@@ -116,7 +116,7 @@ pub mod m3_ren1 {
       node(b) <-- if let Some(a) = Some(4), path(b), edge(a, c);
       foo(a, 1) <-- node(a) if ((*a) != 1);
       bar(a, a) <-- foo(a, 3), if ((*a) <= 1), node(a);
-      baz((c + 1), c, 1) <-- bar(a, b) if ((*a) < 1) let c = ((*b) + 0), foo(c, a), let d = (*b), if (c < 6);
+      baz((c + 1), c, 1) <-- bar(a, b) if ((*a) < 1) let c = ((*b) + 0), foo(c, a), let d = (*b), if (c < 6), if (c <= 6);
       foo(a, k) <-- if let Some(m) = Some(2), edge(a, b), foo(b, m) let k = ((*a) + 1);
       bar(a, 1) <-- edge(a, 3) if ((*a) != 6), let b = (*a);
       edge(3, 0);
@@ -368,11 +368,11 @@ pub mod m11_perm1 {
    use crate::common::*;
    ascent! {
       pub struct Prog;
+      relation r0(i64, i64);
       relation r2(i64, i64);
       relation r1(i64, i64);
-      relation r0(i64, i64);
       r2(v0, v1) <-- r2(v0, v1), r2(v1, v2), r0(v0, v0);
-      r2(1, v0) <-- if let Some(v0) = Some(3), r0(v0, v0), r1(v0, v1), for v2 in 0..4;
+      r2(1, v0) <-- if let Some(v0) = Some(3), r0(v0, v0), r1(v0, v1), for v2 in 0..4, if (v0 <= 6);
    }
    pub struct Inst { p: Prog, pool: Option<ascent::rayon::ThreadPool> }
    pub fn make(pool: Option<usize>) -> Box<dyn Driver> {
